@@ -17,6 +17,7 @@ from typing import Any
 from sim import wire as W
 from sim.runworld import make_xknx
 from sim.world import Run
+from sim import e2e as E
 
 ID = "C35"
 LEVEL = "exploration"
@@ -30,13 +31,22 @@ REAL = ["xknx.core.StateUpdater/_StateTracker", "xknx.core.ValueReader", "xknx.r
         "xknx.devices.Switch/Devices", "xknx.core.TelegramQueue", "xknx.cemi.CEMIHandler", "xknx.core.ConnectionManager"]
 STUB = ["KNXIPInterface (StubInterface) with a bus responder answering GroupValueRead after a planned latency or never",
         "loop (SimLoop)"]
-ASSUMPTIONS = ["a read is 'in progress' from the instant its GroupValueRead is queued until its answer is delivered or 2 s passed",
+E2E_NOTE = ("whole-stack mode (1 run in 10): real XKNX.start() over a real UDP/TCP tunnel against the gateway + bus model of "
+            "sim/e2e.py with datagram loss / duplication / delay, gateway crashes and disconnects; this module's clauses "
+            "judged across the seams")
+
+REAL = REAL + ["whole-stack mode: " + ", ".join(E.REAL)]
+STUB = STUB + ["whole-stack mode: " + ", ".join(E.STUB)]
+ASSUMPTIONS = [E2E_NOTE, "a read is 'in progress' from the instant its GroupValueRead is queued until its answer is delivered or 2 s passed",
                "upper bounds (bounded progress) allow 2 s per registered tracker plus 1 s for semaphore queueing"]
 
 TIMEOUT = 2.0
 
 
 def gen(seed: int, tier: str) -> dict[str, Any]:
+    if seed % 10 == 7:
+        # one run in 10: the same clauses across the seams, on the whole stack (sim/e2e.py)
+        return E.gen(seed, tier, "C35")
     rng = random.Random(seed)
     n = rng.choice([1, 2, 3, 4, 6])
     unit = rng.choice([1, 1, 2, 60])
@@ -89,6 +99,10 @@ def parse_policy(p) -> tuple[str, float] | None:
 
 
 def run(plan: dict[str, Any]) -> dict[str, Any]:
+    if plan["config"].get("mode") == "e2e":
+        R, obs = E.run(plan)
+        E.judge_c35(R, obs)
+        return E.finish(R, obs)
     from xknx.core import XknxConnectionState
     from xknx.devices import Switch
     from xknx.telegram import GroupAddress
